@@ -31,7 +31,7 @@ Lemma spec_step_purged sp w sp' : spec_step sp w = Some sp' ->
   opair_cmp (sp_purged sp) (sp_purged sp') <> Gt.
 Proof.
   intros H. destruct w as [v|id p|i|u|id|u]; cbn [spec_step] in H.
-  - destruct (opair_leb (sp_vote sp) (Some v)); inversion H; subst; apply opair_eq_le.
+  - destruct (ovote_accepts (sp_vote sp) v); inversion H; subst; apply opair_eq_le.
   - match type of H with (if ?c then _ else _) = _ => destruct c end; inversion H; subst; apply opair_eq_le.
   - match type of H with (if ?c then _ else _) = _ => destruct c end; inversion H; subst; apply opair_eq_le.
   - destruct (N.ltb (lid_index u) (next_index (sp_purged sp))).
